@@ -473,6 +473,12 @@ def main():
         'canaries_refuted': len(canaries) - sum(1 for f in fault if f.startswith('canary')),
         'samples': samples,
     }
+    # the bounded part, quantified (extra keys of the proof-level coverage)
+    coverage['evaluations'] = sum(b['cases'] or 0 for b in bounded_checks)
+    coverage['distinct_nontrivial'] = sum(b.get('distinct') or 0 for b in bounded_checks)
+    coverage['rule'] = ('bounded part only: inputs generated per contract (spec/*_gen.py), kept when they satisfy the '
+                        'contract precondition, compared with the SpecPy oracle / independent reference; distinct = different '
+                        'argument descriptions')
     if degraded or n_obl == 0:
         level = 'other'
         coverage['explanation'] = ('degraded run: %d function(s) could not be brought under the VC generator '
